@@ -261,6 +261,32 @@ def function_call_scope(
     return param_scope
 
 
+def function_parameter_scope(function: Any) -> Scope | None:
+    """Scope for the names bound by the head of an un-applied lambda (internal helper).
+
+    The parameters have no value until the function is called, but they still
+    shadow enclosing bindings and take precedence over ``with`` environments.
+    """
+    from nix_manipulator.expressions.identifier import Identifier  # type: ignore
+
+    names: set[str] = set()
+    parameters = getattr(function, "argument_set", None)
+    if isinstance(parameters, Identifier):
+        names.add(parameters.name)
+    elif isinstance(parameters, list):
+        names.update(
+            param.name for param in parameters if isinstance(param, Identifier)
+        )
+    named = getattr(function, "named_attribute_set", None)
+    if isinstance(named, Identifier):
+        names.add(named.name)
+    if not names:
+        return None
+    scope = Scope(owner=function)
+    scope.parameters = frozenset(names)
+    return scope
+
+
 def attach_resolution_context(
     expr: NixExpression, *, owner: NixExpression | None = None
 ) -> NixExpression:
@@ -312,4 +338,5 @@ __all__ = [
     "get_resolution_context",
     "scopes_for_owner",
     "function_call_scope",
+    "function_parameter_scope",
 ]
